@@ -81,6 +81,22 @@ func c12Exec(c *engine.Ctx, cs c12Case) {
 			}
 			c.Count("endpoint_intersections", 1)
 		} else if cs.Class {
+			// float inputs: the position is not compared with the exact point, but a reported
+			// point must be finite and lie (to within rounding) in the envelopes of both segments
+			// (the true crossing is inside both envelopes, so a point within rounding distance of
+			// it is inside the envelopes widened by that distance: 8 ulps of the coordinate scale)
+			sc := 0.0
+			for _, x := range v {
+				sc = math.Max(sc, math.Abs(float64(x)))
+			}
+			slack := 8 * math.Ldexp(1, -52) * sc
+			in := func(p, q ref.P2) bool {
+				return got[0] >= math.Min(p.X, q.X)-slack && got[0] <= math.Max(p.X, q.X)+slack && got[1] >= math.Min(p.Y, q.Y)-slack && got[1] <= math.Max(p.Y, q.Y)+slack
+			}
+			if math.IsNaN(got[0]) || math.IsNaN(got[1]) || !in(a1, a2) || !in(b1, b2) {
+				fail("crossing-outside-envelopes", fmt.Sprintf("proper crossing reported at (%v,%v), more than 8 ulps outside the envelope of one of the segments", got[0], got[1]))
+				return
+			}
 			c.Count("lattice_proper_crossings", 1)
 		} else {
 			scale := 0.0
@@ -328,6 +344,26 @@ func c12Run(c *engine.Ctx) {
 			}
 		}
 		rec(0, make([]float64, 6))
+	})
+	// nearly coincident segments: the second segment's four ordinates each -2..2 ulps away from the
+	// first segment's (625 per base): proper crossings at an angle of a few ulps, where the
+	// homogeneous-coordinate computation breaks down and the fallback paths run (classification,
+	// and the reported point must stay inside both segments' envelopes)
+	ncBases := [][4]float64{{4, 4, 103, 228}, {0.1, 0.7, 12.3, 3.9}, {-77.25, 5e-3, 1e3, 2e3}, {1e10, 1, 3e10, 7}, {5, 5, 6, 5.000000000000001}}
+	c.Parallel(len(ncBases)*5, func(i int) {
+		b := ncBases[i/5]
+		d0 := i%5 - 2
+		for d1 := -2; d1 <= 2; d1++ {
+			for d2 := -2; d2 <= 2; d2++ {
+				for d3 := -2; d3 <= 2; d3++ {
+					w := []ref.F{ref.F(b[0]), ref.F(b[1]), ref.F(b[2]), ref.F(b[3]), ref.F(ulps(b[0], d0)), ref.F(ulps(b[1], d1)), ref.F(ulps(b[2], d2)), ref.F(ulps(b[3], d3))}
+					c.Count("nearly_coincident_cases", 1)
+					c12Classify(c, c12Case{Pts: w, Class: true})
+					// and with the roles and directions exchanged
+					c12Classify(c, c12Case{Pts: []ref.F{w[6], w[7], w[4], w[5], w[0], w[1], w[2], w[3]}, Class: true})
+				}
+			}
+		}
 	})
 	for _, k := range []string{"class_none", "class_point", "class_overlap", "endpoint_intersections", "proper_crossings", "overlaps", "lattice_classified"} {
 		if c.Get(k) == 0 {
